@@ -1029,6 +1029,9 @@ func (r *Run) DoFile(f *FileOp) {
 	os.MkdirAll(filepath.Dir(full), 0o755)
 	switch f.Kind {
 	case "file":
+		if st, err := os.Lstat(full); err == nil && st.IsDir() {
+			return // never replace a directory by a file
+		}
 		var keep *time.Time
 		if st, err := os.Stat(full); err == nil && f.KeepMeta {
 			t := st.ModTime()
